@@ -170,7 +170,9 @@ class _RunnerIterator(iter_utils.MultiplexIterator[_ValueT]):
         ignore_error=self._ignore_error,
         with_result=self._with_result,
         with_agg_state=self._with_agg,
-        state=state.agg_state,
+        # The recovered iterator updates its aggregation state in place, the
+        # captured state has to stay intact to be recovered from again.
+        state=copy.deepcopy(state.agg_state),
     )
 
   @property
